@@ -330,6 +330,14 @@ func (n *node[T]) checkAmbiguous(pattern string, hasNonString bool) (*node[T], b
 			if node != nil {
 				return node, hasNonString, nil
 			}
+		} else if l := seg.AmbiguousPrefix(s0); l > 0 { // c 是被拆分之后的节点
+			node, hasNonString, err := c.checkAmbiguous(pattern[l:], true)
+			if err != nil {
+				return nil, false, err
+			}
+			if node != nil {
+				return node, hasNonString, nil
+			}
 		}
 	}
 
